@@ -217,7 +217,14 @@ func MkdirAll(fs FS, path string, perm FileMode) error {
 			}
 		}
 	}
-	return Mkdir(fs, path, perm)
+	err := Mkdir(fs, path, perm)
+	if err != nil && errors.Is(err, ErrExist) {
+		// like os.MkdirAll: an already existing directory is success
+		if info, statErr := Stat(fs, path); statErr == nil && info.IsDir() {
+			return nil
+		}
+	}
+	return err
 }
 
 // Remove removes a file with fs.Remove(). Fails with a not implemented error if it's not a RemoveFS.
